@@ -15,7 +15,8 @@ CHECK_MODULE = "Check.C20"
 COQ_IMPORTS = "Model.Condensed"
 INTERP = "vt"
 SHARD = 300
-RULE = ("to_condensed/to_squared: every (n,i,j) for n <= 12 (quick) / 40 (thorough) scalar and array forms, every k "
+RULE = ("[also: constraints as lists of lists, tuples and (m, 2) index arrays] " +
+        "to_condensed/to_squared: every (n,i,j) for n <= 12 (quick) / 40 (thorough) scalar and array forms, every k "
         "for those n, sizes filling 8- and 16-bit integers with n passed as every NumPy integer type that holds it, plus row starts/ends and random k for n up to 10^7 where a mis-rounded float sqrt could change "
         "the truncation; pdist/cdist 1-D metrics on integer-valued inputs (float and int dtype) of length 0..7 with repeated values; "
         "and on decimal / normal-distributed / tiny floats, where every pdist and cdist entry must equal the correctly rounded pair function bit for bit (driver, exact rationals); propagate_constraints on every (cannot-link, must-link) graph with <=2+<=2 edges on 4 vertices (quick) and "
